@@ -459,3 +459,35 @@ func VH_C03_or_code(sc int) {
 	}
 	vreach("end")
 }
+
+// VH_C03_pattern_array: a pattern with a variable inside an array (and one nested in a
+// map), evaluated for two incoming bindings in one call: each binding is substituted into
+// a fresh copy of the pattern — the second binding sees the pattern as written, and the
+// query's own pattern is unchanged afterwards.
+func VH_C03_pattern_array(kind int) {
+	env := vhNewEnv(kind)
+	v1, v2 := vsymStrN("v1", 2), vsymStrN("v2", 2)
+	vassume(v1 != v2 && !vhasPrefix(v1, "?") && !vhasPrefix(v2, "?"))
+	_, err := env.loc.AddFact(env.ctx, "f1", Map{"tags": []interface{}{v1}, "m": map[string]interface{}{"k": v1}, "n": "1"})
+	vassume(err == nil)
+	_, err = env.loc.AddFact(env.ctx, "f2", Map{"tags": []interface{}{v2}, "m": map[string]interface{}{"k": v2}, "n": "2"})
+	vassume(err == nil)
+	pat := map[string]interface{}{"tags": []interface{}{"?t"}, "m": map[string]interface{}{"k": "?t"}, "n": "?n"}
+	pat0 := vsnapshot(pat)
+	q := PatternQuery{Pattern: pat}
+	in := []Bindings{{"?t": v1}, {"?t": v2}}
+	got, qerr := ExecQuery(env.ctx, q, env.loc, QueryContext{Locations: []string{env.loc.Name}}, QueryResult{Bss: in})
+	vassert(qerr == nil, "exec-no-error")
+	if qerr != nil {
+		return
+	}
+	vassert(len(got.Bss) == 2, "one-extension-per-matching-fact")
+	if len(got.Bss) == 2 {
+		vassert(vdeepEq(got.Bss[0]["?n"], "1") && vdeepEq(got.Bss[1]["?n"], "2"), "extension-binds-fact-values")
+	}
+	vassert(vdeepEq(pat, pat0), "query-pattern-unmodified")
+	// and once more with the same parsed query (a cached rule condition is evaluated per event)
+	got, qerr = ExecQuery(env.ctx, q, env.loc, QueryContext{Locations: []string{env.loc.Name}}, QueryResult{Bss: []Bindings{{"?t": v2}}})
+	vassert(qerr == nil && len(got.Bss) == 1, "one-extension-per-matching-fact")
+	vreach("end")
+}
